@@ -189,6 +189,8 @@ def slots_match(model, impl):
 
 def oracle(kind, payload, out):
     """the property's naive definition, evaluated on the implementation's answer. None = not applicable"""
+    if out.startswith("exception") or out == "bad-op":
+        return False
     if kind == "erase":
         v, idx = payload
         return parse(out) == spec_erase(v, idx) if asc(idx) else None
